@@ -206,7 +206,8 @@ class Members:
     # ------------------------------------------------------------------ result
     def handed_over(self, key="properties"):
         """[(node, unverified?)] for every value the function hands over under the name `key`: a keyword argument of a call, an entry
-        of a dict display, a store `d[key] = v` — evaluated in the state of the statement that contains it"""
+        of a dict display, a store `d[key] = v`, the argument of `<group>.add_<key>(X)`, the value of `<group>.<key> = X` — evaluated
+        in the state of the statement that contains it"""
         out = []
         for n in self.g.nodes:
             if n.ast is None or isinstance(n.ast, list) or n not in self.IN or n.kind not in ("stmt", "test", "return", "foriter"):
@@ -217,6 +218,12 @@ class Members:
                     for k in x.keywords:
                         if k.arg == key:
                             out.append((k.value, self.tainted(k.value, st)))
+                    # members added to a group after its creation: <group>.add_<key>(X) (the receiver may be a local / an alias)
+                    if isinstance(x.func, ast.Attribute) and x.func.attr == f"add_{key}" and x.args:
+                        out.append((x.args[0], any(self.tainted(a_, st) for a_ in x.args)))
+                elif isinstance(x, ast.Assign) and any(isinstance(t, ast.Attribute) and t.attr in (key, f"_{key}") and not (isinstance(t.value, ast.Name) and t.value.id in ("self", "cls"))
+                                                       for t in x.targets):
+                    out.append((x.value, self.tainted(x.value, st)))  # <group>.properties = X
                 elif isinstance(x, ast.Dict):
                     for k, v in zip(x.keys, x.values):
                         if isinstance(k, ast.Constant) and k.value == key:
